@@ -1,11 +1,17 @@
 #!/bin/sh
-# run every registered check (quick or thorough tier) and summarise
+# run every registered check (quick or thorough tier) and summarise; works from any checkout of /verif
+# (VERIF_REPO selects the repository tree, default /repo)
 TIER=${1:-quick}
-cd /verif
-for p in C01 C02 C03 C04 C05 C06 C07 C08 C09 C10 C11 C12 C13 C15 C16 C17 C18 C19 C20; do
+HERE=$(cd "$(dirname "$0")/.." && pwd)
+cd "$HERE"
+[ -x engine/bin/ssa2json ] || (cd engine/frontend && GOFLAGS=-mod=mod GOPROXY=off GOSUMDB=off GOTOOLCHAIN=local go build -o ../bin/ssa2json .)
+LOGD=${VERIF_LOGDIR:-/tmp}
+shift
+PROPS=${*:-C01 C02 C03 C04 C05 C06 C07 C08 C09 C10 C11 C12 C13 C15 C16 C17 C18 C19 C20}
+for p in $PROPS; do
   s=$(date +%s)
-  python3-vt checks/check.py $p --tier $TIER > /tmp/verif_run_$p.log 2>&1
+  python3-vt checks/check.py $p --tier $TIER > $LOGD/verif_run_${TIER}_$p.log 2>&1
   rc=$?
   e=$(date +%s)
-  echo "$p rc=$rc $((e-s))s $(tail -1 /tmp/verif_run_$p.log)"
+  echo "$p rc=$rc $((e-s))s $(tail -1 $LOGD/verif_run_${TIER}_$p.log)"
 done
